@@ -233,6 +233,9 @@ class _Formula(_Equiv):
                         "relabelled with the unit of the returned object (so it now holds the converted "
                         "quantity: same formula as the copying form)",
                         N.arr_buf(r) is N.arr_buf(a.x) and r.fields["units"] is a.x.fields["units"]))
+            bx = N.arr_buf(a.x)
+            out.append(("C17: the in-place form keeps the floating-point dtype of its buffer",
+                        z3.And(to_z3(bx.kind) == to_z3(old["kind"]), to_z3(bx.itemsize) == to_z3(old["itemsize"]))))
         else:
             out += unchanged("C09/C18: input of the copying form", a.x, old)
         return out
@@ -637,3 +640,35 @@ def _entry_replay(self, model, label):
 
 
 _ToEquivalent.replay = _entry_replay
+
+
+class _ConvertToEquivalent(_ToEquivalent):
+    """x.convert_to_equivalent(<any unit string>, <equivalence>, **params): the in-place entry point
+    (also behind convert_to_units(equivalence=)): afterwards x itself holds the value the copying
+    entry point would return -- same formula, expressed in the requested unit -- and its name is
+    dropped; a refused request leaves x as it was"""
+    name = "unyt.array.unyt_array.convert_to_equivalent"
+    may_raise = ("UnitParseError", "InvalidUnitEquivalence", "TypeError", "ValueError")
+
+    def ensures(self, it, a, r, old):
+        # judged on the input object itself
+        view = N.make_unyt_array(it, "x_after", units=a.self.fields["units"], buf=N.arr_buf(a.self))
+        out = _ToEquivalent.ensures(self, it, a, view, old)
+        out = [(l, f) for (l, f) in out if "input of the copying entry point" not in l]
+        return out + [("returns None", r is None)]
+
+    def on_raise(self, it, a, old, exc):
+        b = N.arr_buf(a.self)
+        return [("C09/C18: a refused in-place conversion leaves the numbers as they were",
+                 True if b.elem is old["elem"] else to_real(b.elem) == to_real(old["elem"])),
+                ("C09/C18: a refused in-place conversion leaves the unit as it was",
+                 a.self.fields["units"] is old["units"])]
+
+    def canary(self, it, a, r, old):
+        return to_real(N.arr_buf(a.self).elem) == 12345
+
+
+INPLACE_ENTRY = []
+for _e in ("thermal", "mass_energy", "spectral", "number_density", "schwarzschild", "compton", "sound_speed"):
+    INPLACE_ENTRY.append(_mk(_ConvertToEquivalent, "ConvertToEquivalent_" + _e, equiv=_e))
+ALL = ALL + INPLACE_ENTRY
